@@ -715,7 +715,7 @@ def value_object_oracle(rng, n, count):
                 if nm.startswith("_") or (kind == "SpecificAssetId" and nm in ("parent", "namespace_element_sets")):
                     continue      # private slots of the HasSemantics machinery are not part of the value
                 try:
-                    setattr(a, nm, getattr(a, nm, None) if rng.random() < .5 else "changed")
+                    setattr(a, nm, rng.choice([getattr(a, nm, None), "changed", None]))
                     fails.append((f"C07:value-object:{kind}:assignable", f"attribute {nm} of {a!r} could be assigned"))
                 except AttributeError:
                     pass
@@ -723,6 +723,114 @@ def value_object_oracle(rng, n, count):
                     fails.append((f"C07:value-object:{kind}:setattr-raises-{type(e).__name__}", f"{nm}: {e}"))
             if (repr(a), hash(a)) != before:
                 fails.append((f"C07:value-object:{kind}:mutated", f"{before[0]} became {a!r}"))
+    return fails
+
+
+def equivalence_oracle(count):
+    """Hand-built pools over ALL key types (incl. the abstract SUBMODEL_ELEMENT, DATA_ELEMENT, EVENT_ELEMENT and the
+    reserved members) x values: same value / different type and vice versa, and references that differ in exactly one
+    key.  On every pool: == is reflexive, symmetric, transitive (all triples with a == b == c), never equal across
+    kinds, eq => equal hash, and a set / dict finds every member through an equal but distinct object."""
+    from basyx.aas import model
+    fails = []
+    KT = list(model.KeyTypes)
+    vals = ["a", "b", "0"]
+    keys = [model.Key(t, v) for t in KT for v in vals]
+    frag = [t for t in KT if t.is_fragment_key_element]
+    ident = [t for t in KT if t.is_aas_identifiable]
+    mrefs = []
+    for t0 in ident:
+        for v0 in (vals[:2] if t0 == model.KeyTypes.SUBMODEL else vals[:1]):
+            mrefs.append((model.Key(t0, v0),))
+            if t0 != model.KeyTypes.SUBMODEL and v0 != "a":
+                continue
+            for t1 in frag:
+                for v1 in vals[:2]:
+                    if t1 == model.KeyTypes.FRAGMENT_REFERENCE:
+                        continue                 # needs a File/Blob in front (AASd-127); added below
+                    mrefs.append((model.Key(t0, v0), model.Key(t1, v1)))
+    for t1 in (model.KeyTypes.SUBMODEL_ELEMENT_COLLECTION, model.KeyTypes.SUBMODEL_ELEMENT, model.KeyTypes.FILE,
+               model.KeyTypes.DATA_ELEMENT, model.KeyTypes.SUBMODEL_ELEMENT_LIST):
+        for t2 in frag:
+            if t2 == model.KeyTypes.FRAGMENT_REFERENCE and t1 not in (model.KeyTypes.FILE, model.KeyTypes.BLOB):
+                continue
+            if t1 == model.KeyTypes.SUBMODEL_ELEMENT_LIST:
+                mrefs.append((model.Key(model.KeyTypes.SUBMODEL, "a"), model.Key(t1, "a"), model.Key(t2, "0")))
+            else:
+                mrefs.append((model.Key(model.KeyTypes.SUBMODEL, "a"), model.Key(t1, "a"), model.Key(t2, "b")))
+    sem = model.ExternalReference((model.Key(model.KeyTypes.GLOBAL_REFERENCE, "s"),))
+    pools = {"Key": keys}
+    mr = []
+    for ks in mrefs:
+        for ty, rs in ((model.Referable, None), (model.Referable, sem)) + (((model.Property, None),) if len(ks) == 1 else ()):
+            try:
+                mr.append(model.ModelReference(ks, ty, rs))
+            except model.AASConstraintViolation:
+                pass
+    pools["ModelReference"] = mr
+    er = []
+    for v0 in vals[:2]:
+        for tl in (model.KeyTypes.GLOBAL_REFERENCE, model.KeyTypes.FRAGMENT_REFERENCE, None):
+            for v1 in vals[:2]:
+                ks = (model.Key(model.KeyTypes.GLOBAL_REFERENCE, v0),) + ((model.Key(tl, v1),) if tl else ())
+                for rs in (None, sem):
+                    er.append(model.ExternalReference(ks, rs))
+    pools["ExternalReference"] = er
+    said = []
+    for nm in ("n", "m"):
+        for v in vals[:2]:
+            for es in (None, er[0], er[3]):
+                for sm in (None, sem, er[1]):
+                    for sup in ((), (sem,)):
+                        if sup and sm is None:
+                            continue
+                        said.append(model.SpecificAssetId(nm, v, es, sm, sup))
+    pools["SpecificAssetId"] = said
+    import copy
+    for kind, pool in pools.items():
+        n = len(pool)
+        eq = [[(pool[i] == pool[j]) is True for j in range(n)] for i in range(n)]
+        count(f"equivalence-pool {kind}", n)
+        hs = [hash(x) for x in pool]
+        done = set()
+
+        def report(sig, msg):
+            if sig not in done:
+                done.add(sig)
+                fails.append((sig, msg))
+        for i in range(n):
+            if not eq[i][i]:
+                report(f"C07:value-object:{kind}:eq-not-reflexive", f"{pool[i]!r} != itself")
+            for j in range(n):
+                if eq[i][j] != eq[j][i]:
+                    report(f"C07:value-object:{kind}:eq-not-symmetric", f"{pool[i]!r} vs {pool[j]!r}")
+                if eq[i][j] and hs[i] != hs[j]:
+                    report(f"C07:value-object:{kind}:eq-but-hash-differs",
+                           f"{pool[i]!r} == {pool[j]!r} but their hashes differ (not found in a set/dict)")
+                if eq[i][j] and i != j and (pool[j] not in {pool[i]} or {pool[i]: 1}.get(pool[j]) != 1):
+                    report(f"C07:value-object:{kind}:equal-object-not-found-in-set-or-dict", f"{pool[i]!r} / {pool[j]!r}")
+        for i in range(n):
+            ei = [j for j in range(n) if eq[i][j]]
+            for j in ei:
+                for k in range(n):
+                    if eq[j][k] and not eq[i][k]:
+                        report(f"C07:value-object:{kind}:eq-not-transitive",
+                               f"{pool[i]!r} == {pool[j]!r} == {pool[k]!r} but the first differs from the last")
+                        break
+        # a structurally identical but distinct object is equal and hashes alike
+        for x in pool[:: max(1, n // 40)]:
+            y = copy.deepcopy(x) if kind != "SpecificAssetId" else model.SpecificAssetId(
+                x.name, x.value, x.external_subject_id, x.semantic_id, tuple(x.supplemental_semantic_id))
+            if not (x == y and hash(x) == hash(y)):
+                report(f"C07:value-object:{kind}:copy-not-equal", f"{x!r}")
+    kinds = list(pools)
+    for a in kinds:
+        for b in kinds:
+            if a < b and {a, b} != {"ModelReference", "ExternalReference"} or (a < b):
+                for x in pools[a][::7]:
+                    for y in pools[b][::7]:
+                        if x == y or y == x:
+                            fails.append((f"C07:value-object:{a}-equals-{b}", f"{x!r} == {y!r}"))
     return fails
 
 
@@ -875,6 +983,8 @@ def run(chk):
         chk.count(f"class={c}", n)
     for sig, msg in value_object_oracle(rng, 40 if quick else 150, chk.count):
         chk.fail(sig, msg, {"how": "tools/c07.py value_object_oracle(random.Random(seed), n, count)"})
+    for sig, msg in equivalence_oracle(chk.count):
+        chk.fail(sig, msg, {"how": "tools/c07.py equivalence_oracle(lambda *a: None)", "kind": "equivalence"})
     bad, errs = common.run_mismatch_shards("C07", PRELUDE, terms, "check_case", shard=max(8, len(terms) // 32 + 1), jobs=16)
     n1 = common.run_mismatch_shards.evaluated
     bad2, errs2 = common.run_mismatch_shards("C07int", PRELUDE, int_terms, "check_int", shard=4000)
@@ -948,6 +1058,11 @@ def finish(chk):
 def replay(path):
     r = json.load(open(path))
     rp = r.get("replay") or {}
+    if rp.get("kind") == "equivalence" or "value_object_oracle" in str(rp.get("how", "")):
+        import random
+        fails = equivalence_oracle(lambda *a: None) + value_object_oracle(random.Random(0), 40, lambda *a: None)
+        print("oracle:", fails[:6])
+        return 1 if fails else 0
     if "rounds" in rp or "queries" in rp:
         from py2coq import refkeys
         facts = refkeys.facts()
